@@ -14,6 +14,18 @@ import json, os, re, shutil, subprocess, sys, time
 def sh(cmd, **kw):
     return subprocess.run(cmd, shell=True, stdout=subprocess.PIPE, stderr=subprocess.STDOUT, text=True, **kw)
 
+def restore_dev_full():
+    """a broken CLI under observation (e.g. one that deletes its output file on a write error) can remove
+    or replace /dev/full on this machine; put the device back so that later runs judge the program"""
+    import stat
+    try:
+        ok = stat.S_ISCHR(os.stat('/dev/full').st_mode)
+    except OSError:
+        ok = False
+    if not ok:
+        subprocess.run('rm -f /dev/full; mknod -m 666 /dev/full c 1 7', shell=True)
+        print('NOTE: /dev/full had been removed or replaced by a program under observation; device node restored', flush=True)
+
 def main():
     src, sid, prop = sys.argv[1:4]
     run_all = '--all' in sys.argv
@@ -84,4 +96,7 @@ def main():
     if not ok:
         print({k: v for k, v in meta.items() if k.startswith(('patch', 'own', 'demo_f', 'demo_p'))})
 
-main()
+try:
+    main()
+finally:
+    restore_dev_full()
